@@ -5,7 +5,7 @@ import sys
 
 from .builtins import builtin_commands
 from .containers import CaseInsensitiveDict
-from .deferred import Promise, wait, BaseDeferred, Deferred, SizedDeferred, DeferredCycle
+from .deferred import Promise, wait, BaseDeferred, Deferred, SizedDeferred, DeferredCycle, try_compute, Awaiting
 from .devices import open_device
 from .formats import file_formats
 from .metacommand_impl import get_as_int
@@ -359,6 +359,12 @@ class Compiler:
 
 
     def compile_and_link_files(self, files_ast):
+        # The evaluation state is module-level. If an earlier assembly in this
+        # process was aborted abnormally (e.g. interrupted inside a context
+        # manager), start from a clean state instead of inheriting its leftovers.
+        try_compute.depth = 0
+        del Awaiting.awaiting_stack[:]
+
         link_base = {
             "promise": Promise[int]("LA"),
             "set_where": None
